@@ -11,7 +11,8 @@
 //   r:<METHOD>:<csrf cookie>:<session cookie>:<hdr tok>:<query tok>:<form tok>:<param tok>:<custom tok>:
 //     <origin>:<ok>:<scheme>:<host>:<referer>:<ok>:<scheme>:<host>:<Host header>:<https 0/1>:<del 0/1>:<faults g/s/d or ->
 //   (ok/scheme/host = net/url.Parse of the lower-cased header: recomputed by the harness on replay)
-// Observation per `r` op: pass,status,ck(none|exp|hex),sc(none|hex),gen(+-joined hex|-),sgen,live(+-joined k@deadline|?|-)
+// Observation per `r` op: pass,status,ck(none|exp|hex),sc(none|hex),gen(+-joined hex|-),sgen,
+//   fired(faults that actually hit a storage call: subset of gsd, or -),live(+-joined k@deadline|?|-)
 package main
 
 import (
@@ -23,7 +24,7 @@ import (
 	"io"
 	"net"
 	"net/url"
-	"os"
+	"runtime/debug"
 	"sort"
 	"strconv"
 	"strings"
@@ -51,6 +52,7 @@ type entry struct {
 type faultStorage struct {
 	m                         map[string]entry
 	failGet, failSet, failDel bool
+	fired                     [3]bool // a Get / Set / Delete actually failed during this request
 }
 
 func newFaultStorage() *faultStorage { return &faultStorage{m: map[string]entry{}} }
@@ -59,6 +61,7 @@ func (s *faultStorage) live(e entry) bool { return e.exp.IsZero() || time.Now().
 
 func (s *faultStorage) Get(key string) ([]byte, error) {
 	if s.failGet {
+		s.fired[0] = true
 		return nil, errFault
 	}
 	e, ok := s.m[key]
@@ -70,6 +73,7 @@ func (s *faultStorage) Get(key string) ([]byte, error) {
 
 func (s *faultStorage) Set(key string, val []byte, exp time.Duration) error {
 	if s.failSet {
+		s.fired[1] = true
 		return errFault
 	}
 	if len(key) == 0 || len(val) == 0 {
@@ -85,6 +89,7 @@ func (s *faultStorage) Set(key string, val []byte, exp time.Duration) error {
 
 func (s *faultStorage) Delete(key string) error {
 	if s.failDel {
+		s.fired[2] = true
 		return errFault
 	}
 	delete(s.m, key)
@@ -206,6 +211,8 @@ type world struct {
 	nsid     int
 	ran      bool
 	sessions bool
+	// one RequestCtx per connection kind, reused across requests like a keep-alive connection
+	plain, secure *fasthttp.RequestCtx
 }
 
 func tokenSafe(s string) bool {
@@ -412,20 +419,32 @@ func (w *world) do(o op) (obs string) {
 	if o.referer != "" {
 		req.Header.Set("Referer", o.referer)
 	}
-	var fctx fasthttp.RequestCtx
+	var fctx *fasthttp.RequestCtx
 	if o.https {
-		fctx.Init2(fakeTLSConn{}, nil, false)
+		if w.secure == nil {
+			w.secure = &fasthttp.RequestCtx{}
+			w.secure.Init2(fakeTLSConn{}, nil, false)
+		}
+		fctx = w.secure
 	} else {
-		fctx.Init2(fakeConn{}, nil, false)
+		if w.plain == nil {
+			w.plain = &fasthttp.RequestCtx{}
+			w.plain.Init2(fakeConn{}, nil, false)
+		}
+		fctx = w.plain
 	}
+	fctx.Request.Reset()
+	fctx.Response.Reset()
+	fctx.ResetUserValues() // as fasthttp's server loop does between requests (fiber Locals live there)
 	req.CopyTo(&fctx.Request)
 	if w.st != nil {
 		w.st.failGet = strings.Contains(o.faults, "g")
 		w.st.failSet = strings.Contains(o.faults, "s")
 		w.st.failDel = strings.Contains(o.faults, "d")
+		w.st.fired = [3]bool{}
 	}
 	w.ran, w.gens, w.sgens = false, nil, nil
-	w.h(&fctx)
+	w.h(fctx)
 	if w.st != nil {
 		w.st.failGet, w.st.failSet, w.st.failDel = false, false, false
 	}
@@ -446,8 +465,19 @@ func (w *world) do(o op) (obs string) {
 			sc = gen.Hex(string(c.Value()))
 		}
 	})
+	fired := ""
+	if w.st != nil {
+		for i, c := range "gsd" {
+			if w.st.fired[i] {
+				fired += string(c)
+			}
+		}
+	}
+	if fired == "" {
+		fired = "-"
+	}
 	return strings.Join([]string{gen.B(w.ran), strconv.Itoa(fctx.Response.StatusCode()), ck, sc,
-		plusList(w.gens), plusList(w.sgens), w.liveObs()}, ",")
+		plusList(w.gens), plusList(w.sgens), fired, w.liveObs()}, ",")
 }
 
 // runCase executes a history on a fresh world and returns the obs field.
@@ -522,10 +552,17 @@ func replay(wr *gen.Writer, file string) {
 }
 
 func main() {
+	debug.SetGCPercent(-1) // see chunk.go
 	log.SetOutput(io.Discard)
 	o := gen.ParseFlags()
-	// align the harness half a second off the 1 s timestamp ticker so that whole-second advances
-	// never race the updater (utils.Timestamp is then exactly floor(now))
+	if o.Replay == "" && *flagLo < 0 && o.N > chunkSize {
+		runParent(o)
+		return
+	}
+	// start gofiber/utils' 1 s timestamp updater now (a session store without Storage creates the
+	// built-in memory storage, which starts it), then move the harness half a second off its ticks so
+	// that whole-second advances never race the updater: utils.Timestamp() is exactly floor(now)
+	_ = session.NewStore()
 	time.Sleep(500 * time.Millisecond)
 	wr := gen.NewWriter(o.Out)
 	defer wr.Close()
@@ -533,11 +570,14 @@ func main() {
 		replay(wr, o.Replay)
 		return
 	}
+	lo, hi := 0, o.N
+	if *flagLo >= 0 {
+		lo, hi = *flagLo, *flagHi
+	}
 	root := gen.New(o.Seed)
-	for i := 0; i < o.N; i++ {
+	for i := lo; i < hi; i++ {
 		r := root.Fork(uint64(i))
 		c, ops, obs := genCase(r, wr)
 		emit(wr, fmt.Sprintf("s%d.%d", o.Seed, i), c, ops, obs)
 	}
-	_ = os.Stdout
 }
